@@ -12,7 +12,7 @@
 (***************************************************************************)
 EXTENDS KipBudget, TLC, Json
 
-CONSTANT N          \* word length (5 quick, 6 thorough)
+CONSTANT N          \* word length (5 quick, 7 thorough)
 
 Alpha == <<"lp", "lb", "rp", "rb", "q", "bs", "sl", "nl", "x">>
 A == Len(Alpha)
